@@ -122,6 +122,42 @@ theorem collect_length (files : List (String × List Test)) :
   | nil => rfl
   | cons f rest ih => simp [List.flatMap_cons, ih]
 
+/-- End to end (no `-k`, `--slow`, no `-x`): every test of every discovered file gets a verdict line — whichever file
+it is in and whatever the tests of other files are called. -/
+theorem every_test_of_every_file_reported (files : List (String × List Test)) (f : String) (ts : List Test) (t : Test)
+    (hf : (f, ts) ∈ files) (ht : t ∈ ts) :
+    t ∈ (runTests none true false ((collect files).map (·.2))).1.map (·.1) := by
+  rw [all_selected_reported]
+  apply List.mem_filter.2
+  refine ⟨List.mem_map.2 ⟨(f, t), collect_complete files f ts t hf ht, rfl⟩, ?_⟩
+  simp [selected]
+
+/-- … and a failing one among them makes the run fail. -/
+theorem failing_test_in_any_file_fails_run (files : List (String × List Test)) (f : String) (ts : List Test) (t : Test)
+    (hf : (f, ts) ∈ files) (ht : t ∈ ts) (hs : t.skip = false) (hx : t.xfail = false) (hb : t.bodyPasses = false) :
+    (runTests none true false ((collect files).map (·.2))).2.exitOk = false := by
+  have hmem := every_test_of_every_file_reported files f ts t hf ht
+  obtain ⟨r, hr, hrt⟩ := List.mem_map.1 hmem
+  unfold runTests at hr ⊢
+  simp only at hr ⊢
+  apply (exit_iff_failure _).2
+  refine ⟨r, hr, Or.inl ?_⟩
+  -- the verdict attached to `t` by the loop is runOne t
+  have key : ∀ (l : List Test) (r : Test × Verdict × Bool), r ∈ runLoop false l → r.2 = runOne r.1 := by
+    intro l
+    induction l with
+    | nil => intro r h; simp [runLoop] at h
+    | cons x xs ih =>
+      intro r h
+      simp only [runLoop, Bool.false_and, Bool.false_eq_true, if_false, List.mem_cons] at h
+      rcases h with rfl | h
+      · rfl
+      · exact ih r h
+  have := key _ r hr
+  rw [hrt] at this
+  rw [this]
+  simp [runOne, hs, hx, hb]
+
 /-- Keeping one test per function name drops a failing test behind a passing one of the same name (seed C16-5): the
 run then reports success although a test fails. -/
 theorem first_of_name_hides_a_failure :
